@@ -29,6 +29,11 @@ def sim2(a, b, batch_size=1, random_state=None):
     return np.asarray(a, dtype=float) + 0.5 * np.asarray(b, dtype=float) + random_state.normal(0, 1, size=batch_size)
 
 
+def sim_scale(mu, tau, batch_size=1, random_state=None):
+    models._bump('sim')
+    return np.asarray(mu, dtype=float) + np.asarray(tau, dtype=float) * random_state.normal(0, 1, size=batch_size)
+
+
 def ident(y):
     return y
 
@@ -54,6 +59,16 @@ def build(kind):
         b = elfi.Prior('uniform', -1, 3, model=m, name='b')
         Y = elfi.Simulator(sim2, a, b, model=m, name='Y', observed=np.array([1.0]))
         prior = lambda th: ss.norm.pdf(th[:, 0], 0, 2) * ss.uniform.pdf(th[:, 1], -1, 3)
+    elif kind == 'hier-scale':   # a bounded parent is the SCALE of its child: outside the parent's support the joint log
+        # density is nan (not -inf); the posterior concentrates at the parent's boundary tau = 0
+        tau = elfi.Prior('uniform', 0, 2, model=m, name='tau')
+        mu = elfi.Prior('norm', 0, tau, model=m, name='mu')
+        Y = elfi.Simulator(sim_scale, mu, tau, model=m, name='Y', observed=np.array([0.0]))
+
+        def prior(th):
+            with np.errstate(all='ignore'):
+                p = ss.norm.pdf(th[:, 0], 0, th[:, 1]) * ss.uniform.pdf(th[:, 1], 0, 2)
+            return np.where(np.isfinite(p), p, 0.0)
     else:
         raise KeyError(kind)
     S = elfi.Summary(ident, Y, model=m, name='S')
@@ -225,6 +240,12 @@ def run(ctx):
                 for sc in scheds:
                     for s in seeds:
                         cases.append({'kind': 'smc', 'model': model, 'bs': bs, 'n_samples': n, 'schedule': sc, 'seed': s})
+    # hierarchical prior whose bounded parent is the child's scale, thresholds that pull the population to tau = 0
+    for bs in (2, 4):
+        for n in (6, 12) if q else (6, 12, 25):
+            for sc in (['thresholds', [0.5, 0.1]], ['thresholds', [1.0, 0.3, 0.1]], ['quantiles', [0.5, 0.3]]):
+                for s in seeds + [base + 11, base + 12]:
+                    cases.append({'kind': 'smc', 'model': 'hier-scale', 'bs': bs, 'n_samples': n, 'schedule': sc, 'seed': s})
     # continued sampling on the same sampler object
     for model in ('bounded', 'hier'):
         for bs in (1, 3):
